@@ -13,6 +13,7 @@ import Anndb.Drive.Rpc
 import Anndb.Drive.Recovery
 import Anndb.Drive.RaftLoop
 import Anndb.Drive.Members
+import Anndb.Drive.Exact
 /-! `driver <engine>`: the executable Lean models behind a one-line-in, one-line-out protocol. -/
 def main (args : List String) : IO UInt32 := do
   let h ← IO.getStdin
@@ -33,4 +34,5 @@ def main (args : List String) : IO UInt32 := do
   | ["recovery"] => Anndb.Drive.Recovery.main h out; return 0
   | ["raftloop"] => Anndb.Drive.RaftLoop.main h out; return 0
   | ["members"] => Anndb.Drive.Members.main h out; return 0
+  | ["exact"] => Anndb.Drive.Exact.main h out; return 0
   | _ => IO.eprintln "usage: driver <engine>"; return 2
